@@ -12,7 +12,7 @@ NOT_APPLICABLE = {}
 
 PROPS = {
     "C01": dict(
-        legs=[dict(monitor="c01", config="asan", cases=K(400000, 40000000))],
+        legs=[dict(monitor="c01", config="asan", cases=K(400000, 12000000))],
         rule="(input, base) pairs from the WPT corpora, a byte-at-every-offset sweep, a URL grammar generator and code-point "
              "mutation; each compared with the reference WHATWG parser (ref_url.h + ICU UTS46). Non-trivial: the reference got "
              "past the scheme state. Distinct: (set of reference parser states visited, reference host kind, outcome, generator host kind).",
@@ -27,9 +27,9 @@ PROPS = {
         level_note="trusted: ref_url.h (gated on 921 WPT vectors per run), ICU 15 UTS46 for non-ASCII hosts, generators; says nothing about inputs not generated",
     ),
     "C02": dict(
-        legs=[dict(monitor="c02", config="asan", name="c02:surface/asan", cases=K(200000, 20000000)),
-              dict(monitor="c02", config="asan-dev", name="c02:surface/asan-dev", cases=K(20000, 2000000)),
-              dict(monitor="c02", config="plain", name="c02:surface/valgrind", cases=K(3200, 320000), env={"VERIF_LOG_EACH_CASE": "1"},
+        legs=[dict(monitor="c02", config="asan", name="c02:surface/asan", cases=K(120000, 3000000)),
+              dict(monitor="c02", config="asan-dev", name="c02:surface/asan-dev", cases=K(16000, 400000)),
+              dict(monitor="c02", config="plain", name="c02:surface/valgrind", cases=K(3200, 64000), env={"VERIF_LOG_EACH_CASE": "1"},
                    wrap=["valgrind", "-q", "--error-exitcode=99", "--exit-on-first-error=yes", "--leak-check=full", "--errors-for-leak-kinds=definite", "--track-origins=no", "--max-stackframe=8388608"],
                    args=["--alarm", "1200"])],
         rule="six arbitrary byte strings per case (random bytes, embedded NULs, stray/truncated UTF-8, corrupted corpus URLs, xn-- labels, pattern syntax, sizes 0..64 KiB incl. "
@@ -50,7 +50,7 @@ PROPS = {
         level_note="held = no report on the executions driven; not a proof of memory safety",
     ),
     "C03": dict(
-        legs=[dict(monitor="hist", config="asan", name="hist:c03/asan", args=["--mode", "c03"], cases=K(100000, 10000000))],
+        legs=[dict(monitor="hist", config="asan", name="hist:c03/asan", args=["--mode", "c03"], cases=K(200000, 10000000))],
         rule="setter histories (1-12 ops, thorough 1-40) on start URLs from WPT, grammar and mutation, plus every WPT setters_tests vector; "
              "after every op all 11 API observables are compared with the reference API setters (ref_url.h), a false-returning setter must "
              "leave every observable unchanged, and relative references are resolved against the live object. Non-trivial: history with "
@@ -64,7 +64,7 @@ PROPS = {
         level_note="trusted: ref_url.h setters (gated on 296 WPT setter vectors per run), ICU for non-ASCII hosts; histories up to 40 ops",
     ),
     "C04": dict(
-        legs=[dict(monitor="hist", config="asan", name="hist:c04/asan", args=["--mode", "c04"], cases=K(300000, 30000000))],
+        legs=[dict(monitor="hist", config="asan", name="hist:c04/asan", args=["--mode", "c04"], cases=K(900000, 30000000))],
         rule="the same parse (+base) and setter history applied in lockstep to ada::url and ada::url_aggregator; success flags, return values, "
              "11 getters, has_* predicates, host_type, has_opaque_path, href size and all get_components() fields compared after every step. "
              "Non-trivial: both parse and >=1 setter changed state. Distinct: (op/changed sequence hash, scheme type, host type, components present).",
@@ -75,7 +75,7 @@ PROPS = {
         level_note="a defect shared by both types is invisible here (C01/C03 cover that)",
     ),
     "C05": dict(
-        legs=[dict(monitor="hist", config="asan", name="hist:c05/asan", args=["--mode", "c05"], cases=K(150000, 15000000))],
+        legs=[dict(monitor="hist", config="asan", name="hist:c05/asan", args=["--mode", "c05"], cases=K(600000, 30000000))],
         rule="every successfully parsed URL (+base), every relative resolution and every set_href result is re-parsed from its href with no base; "
              "href, all getters, predicates and offsets must be identical, and every href byte must be 0x21-0x7E except a space strictly inside "
              "an opaque path. Non-trivial: href differs from the input. Distinct: normalisation-feature mask x scheme type.",
@@ -87,7 +87,7 @@ PROPS = {
         level_note="no reference model; only parser outputs are in the quantifier",
     ),
     "C06": dict(
-        legs=[dict(monitor="idna", config="asan", name="idna:c06/asan", args=["--mode", "c06"], cases=K(300000, 30000000))],
+        legs=[dict(monitor="idna", config="asan", name="idna:c06/asan", args=["--mode", "c06"], cases=K(1200000, 60000000))],
         rule="WPT IDNA vectors through URL host parsing; every scalar value c in 'a c b' compared with ICU UTS46 (stable alphabet: assigned in "
              "Unicode 15 minus data/idna_drift.tsv) plus data-independent laws (map idempotent, mapped value NFC and lower-case); the Bidi class "
              "table compared with ICU for every assigned code point through hook H7; generated multi-label domains, ContextJ/Bidi label shapes, "
@@ -106,7 +106,7 @@ PROPS = {
         exhaustive=False,
     ),
     "C08": dict(
-        legs=[dict(monitor="limit", config="asan", name="limit:c08/asan", args=["--mode", "c08"], cases=K(200000, 20000000))],
+        legs=[dict(monitor="limit", config="asan", name="limit:c08/asan", args=["--mode", "c08"], cases=K(600000, 20000000))],
         rule="(input, base) pairs from WPT, grammar, mutation and growth-prone shapes, each evaluated under the default limit and under limits within "
              "+-4 of |input|, |input|+|base|, 3x that and the unlimited result size; can_parse / ada_can_parse[_with_base] must equal the success of "
              "parse(base) then parse(input, &base) under the same limit. Non-trivial: the fast scanner gave a definite answer or the size_safe / "
@@ -119,7 +119,7 @@ PROPS = {
         level_note="a defect shared by parse and can_parse is invisible here (C01)",
     ),
     "C09": dict(
-        legs=[dict(monitor="limit", config="asan", name="limit:c09/asan", args=["--mode", "c09"], cases=K(200000, 20000000))],
+        legs=[dict(monitor="limit", config="asan", name="limit:c09/asan", args=["--mode", "c09"], cases=K(800000, 30000000))],
         rule="parses (+base) and setter histories of growth-prone inputs under a limit L chosen within a few bytes of the input size or of the unlimited "
              "result size; checked: href size <= L after every success, refusal leaves all observables unchanged, and each operation is compared with the "
              "same operation on a clone run with the limit lifted (must be identical if argument and unlimited result fit, must fail atomically if the "
@@ -133,8 +133,8 @@ PROPS = {
         level_note="limits only up to a few hundred bytes are exercised (behaviour near 2^32 is not)",
     ),
     "C10": dict(
-        legs=[dict(monitor="c10", config="asan", name="c10:spell/asan", args=["--mode", "spell"], cases=K(400000, 40000000)),
-              dict(monitor="hist", config="asan", name="hist:c10/asan", args=["--mode", "c10"], cases=K(100000, 10000000)),
+        legs=[dict(monitor="c10", config="asan", name="c10:spell/asan", args=["--mode", "spell"], cases=K(400000, 12000000)),
+              dict(monitor="hist", config="asan", name="hist:c10/asan", args=["--mode", "c10"], cases=K(200000, 6000000)),
               dict(monitor="c10", config="plain", name="c10:sweep32/plain", args=["--mode", "sweep32"], cases=K(8000000, 0))],
         rule="construction oracle: an address is drawn first and rendered in a random valid spelling (IPv4: 1-4 parts, decimal/octal/hex per part, leading zeros, "
              "upper-case hex, trailing dot, percent-encoded characters; IPv6: compression of any zero run, leading zeros, mixed case, embedded IPv4) or a named "
@@ -178,7 +178,7 @@ PROPS = {
         exhaustive=True,
     ),
     "C12": dict(
-        legs=[dict(monitor="c12", config="asan", cases=K(150000, 15000000))],
+        legs=[dict(monitor="c12", config="asan", cases=K(150000, 5000000))],
         rule="operation histories (0-30 ops, thorough 0-40: append/set/remove(1,2)/has(1,2)/get/get_all/sort/reset/iterate(keys,values,entries,index,range-for,front/back)/"
              "copy/move/to_string+reparse) over a small key alphabet with many duplicates, BMP vs supplementary names whose UTF-16 order differs from code-point order, "
              "combining sequences, empty names, invalid-UTF-8 names, and init strings built from '&', '=', '+', '%' shapes and raw bytes; the whole list is compared with an "
@@ -194,7 +194,7 @@ PROPS = {
         level_note="trusted: the 60-line model in monitors/c12.cpp (self-tested per run); histories up to 40 ops",
     ),
     "C17": dict(
-        legs=[dict(monitor="c17", config="asan", cases=K(100000, 10000000))],
+        legs=[dict(monitor="c17", config="asan", cases=K(100000, 3000000))],
         rule="histories (2-32 calls, thorough 2-52) over a table of 4 URL handles, 3 search-params handles, 6 iterator slots and transient string lists / owned strings: "
              "ada_parse / ada_parse_with_base (valid, invalid and arbitrary-byte inputs, embedded NUL, zero length), ada_copy, every setter and clear_*, every getter/predicate/"
              "ada_get_components/ada_get_origin/host and scheme type after every step, ada_can_parse*, ada_idna_*, limit getters/setters, version functions, every search-params "
@@ -214,7 +214,7 @@ PROPS = {
     "C18": dict(
         custom=c18.pre,
         post=c18.post,
-        legs=[dict(monitor="obs18", config=cfg, name=c18.legname(cfg), cases=K(400000, 40000000)) for cfg in c18.CONFIGS],
+        legs=[dict(monitor="obs18", config=cfg, name=c18.legname(cfg), cases=K(800000, 24000000)) for cfg in c18.CONFIGS],
         rule="one deterministic observer program (parse +base and setter histories for both URL types with to_string, can_parse, host shapes biased to what the ISA-specific "
              "kernels look at: pure-decimal dotted strings of 7-20 bytes with '..', leading/trailing dots and 4-digit parts, IPv6 colon/dot shapes, delimiters and tabs in late "
              "16-byte blocks; IDNA, search-params sort, percent-encoding, url_pattern construction/test/exec incl. init dictionaries) is built five ways - plain SSE2, -mssse3, "
@@ -231,10 +231,10 @@ PROPS = {
         level_note="equality is judged on the observer's rendering (all getters, predicates, offsets, return values, serialisations)",
     ),
     "C13": dict(
-        legs=[dict(monitor="c13", config="tsan", name="c13:m1-first-use/tsan", args=["--mode", "m1"], workers=3, cases=K(450, 60000)),
+        legs=[dict(monitor="c13", config="tsan", name="c13:m1-first-use/tsan", args=["--mode", "m1"], workers=3, cases=K(450, 9000)),
               # few worker processes on purpose: every trial has spinning waiters, oversubscribing the cores only slows the winner down
-              dict(monitor="c13", config="tsan", name="c13:m2-schedules/tsan", args=["--mode", "m2"], workers=5, cases=K(1000, 120000)),
-              dict(monitor="c13", config="asan", name="c13:m2-schedules/asan", args=["--mode", "m2"], workers=5, cases=K(300, 40000)),
+              dict(monitor="c13", config="tsan", name="c13:m2-schedules/tsan", args=["--mode", "m2"], workers=5, cases=K(1000, 30000)),
+              dict(monitor="c13", config="asan", name="c13:m2-schedules/asan", args=["--mode", "m2"], workers=5, cases=K(300, 10000)),
               dict(monitor="c13", config="asan", name="c13:m3a-limit-splits/asan", args=["--mode", "m3a"], cases=K(320000, 16000000)),
               dict(monitor="c13", config="tsan", name="c13:m3b-limit-toggle/tsan", args=["--mode", "m3b"], workers=4, cases=K(400000, 8000000)),
               dict(monitor="c13", config="tsan", name="c13:m4-stress/tsan", args=["--mode", "m4"], workers=2, cases=K(400000, 8000000))],
@@ -251,7 +251,7 @@ PROPS = {
                            "m2_schedules_run": 3000, "m2_distinct_interleavings_observed": 100, "m2_point_entry": 1, "m2_point_after_first_load": 1, "m2_point_cas_won": 1, "m2_point_after_inflate": 1,
                            "m2_point_before_ready_store": 1, "m2_point_after_ready_store": 1, "m2_point_cas_lost": 1, "m2_point_spin": 1,
                            "m3a_operations_with_2plus_reads": 1000, "m3a_split_executions": 5000, "m3a_operations_limit_dependent": 1000, "m3b_operations_checked": 5000, "m4_operations_compared": 20000},
-                    thorough={"m1_inprocess_trials": 20000, "m2_schedules_run": 60000, "m3a_split_executions": 500000, "m3b_operations_checked": 200000, "m4_operations_compared": 1000000,
+                    thorough={"m1_inprocess_trials": 8000, "m2_schedules_run": 60000, "m3a_split_executions": 500000, "m3b_operations_checked": 200000, "m4_operations_compared": 1000000,
                               "trials_with_spinning_waiter": 10, "m2_point_spin": 1, "m2_point_cas_lost": 1}),
         assumptions=["interleavings are enumerated at H3 hook-point granularity, not instruction granularity; weak-memory reorderings are decided by TSan's happens-before model, not observed on x86",
                      "the scheduler and gates use only relaxed atomics and pause loops so that they donate no happens-before edge to the code under test",
@@ -263,7 +263,7 @@ PROPS = {
         level_note="TSan sees only the executions produced; hook-point granularity; x86 only",
     ),
     "C14": dict(
-        legs=[dict(monitor="pat", config="asan", name="pat:c14/asan", args=["--mode", "c14"], cases=K(60000, 6000000))],
+        legs=[dict(monitor="pat", config="asan", name="pat:c14/asan", args=["--mode", "c14"], cases=K(160000, 8000000))],
         rule="patterns from the WPT URLPattern corpus (all constructible, engine-independent ones) and from a per-component generator biased to each execution mode "
              "(EMPTY / EXACT_MATCH / FULL_WILDCARD / REGEXP: empty, literal, '*', ':name', '(regexp)', '{..}?' groups, suffix wildcards, ignoreCase, constructor strings, base URLs); "
              "inputs instantiated from the pattern's literals plus near misses (case flip, extra character, emptied component, lone '?'/'#'), URL strings +-base, corpus URLs, "
@@ -280,7 +280,7 @@ PROPS = {
         level_note="a defect shared by the shortcut and regexp paths is invisible (WPT vectors cover part of that under C15)",
     ),
     "C15": dict(
-        legs=[dict(monitor="pat", config="asan", name="pat:c15/asan", args=["--mode", "c15"], cases=K(150000, 15000000))],
+        legs=[dict(monitor="pat", config="asan", name="pat:c15/asan", args=["--mode", "c15"], cases=K(600000, 30000000))],
         rule="(i) every engine-independent WPT URLPattern vector (construction success, component pattern strings, exactly-empty components, test/exec verdicts, inputs and groups); "
              "(ii) each canonicalize_* helper (protocol, username, password, hostname, port with and without protocol, pathname, opaque pathname, search, hash) against the "
              "URLPattern Standard's definition executed literally with the URL machinery (parser / setters on a dummy URL): every 1-byte and (quick: a quarter of, thorough: every) "
@@ -300,7 +300,7 @@ PROPS = {
         level_note="trusted: ada's URL parser/setters as the definition's executor, the model in monitors/pat.cpp, WPT vectors",
     ),
     "C16": dict(
-        legs=[dict(monitor="idna", config="asan", name="idna:c16/asan", args=["--mode", "c16"], cases=K(300000, 30000000))],
+        legs=[dict(monitor="idna", config="asan", name="idna:c16/asan", args=["--mode", "c16"], cases=K(1200000, 60000000))],
         rule="pairs of domain spellings related by a generator-known equivalence (NFD form, reordering of adjacent marks with distinct non-zero ccc, ASCII case, "
              "insertion of ignored code points, full-width forms, ideographic full stops) must convert identically or both fail; results are idempotent, "
              "lower-case ASCII, survive ToASCII(ToUnicode(ToASCII(x))) and agree with URL host parsing. Non-trivial: the two spellings differ and at least one converts. "
@@ -313,8 +313,8 @@ PROPS = {
         level_note="relations are sound by construction (Unicode stability policies); says nothing about absolute correctness (C06)",
     ),
     "C07": dict(
-        legs=[dict(monitor="hist", config="asan", name="hist:c07/asan", args=["--mode", "c07"], cases=K(100000, 10000000)),
-              dict(monitor="hist", config="asan-dev", name="hist:c07/asan-dev", args=["--mode", "c07"], cases=K(30000, 1000000))],
+        legs=[dict(monitor="hist", config="asan", name="hist:c07/asan", args=["--mode", "c07"], cases=K(200000, 6000000)),
+              dict(monitor="hist", config="asan-dev", name="hist:c07/asan-dev", args=["--mode", "c07"], cases=K(60000, 2000000))],
         rule="after every operation of every history on a url_aggregator: offsets monotone and in range, each getter equals the slice its offsets "
              "delimit, re-assembly from getters and has_* predicates equals href, get_href_size()==size, validate() true; copies/moves are "
              "independent values; the asan-dev leg also arms every ADA_ASSERT_* in the library. Non-trivial: >=2 state-changing ops. "
@@ -326,7 +326,7 @@ PROPS = {
         level_note="invariant evaluator is harness code (invariants.h); copies checked by snapshot comparison",
     ),
     "C19": dict(
-        legs=[dict(monitor="hist", config="asan", name="hist:c19/asan", args=["--mode", "c19"], cases=K(100000, 10000000))],
+        legs=[dict(monitor="hist", config="asan", name="hist:c19/asan", args=["--mode", "c19"], cases=K(400000, 20000000))],
         rule="URL record invariants (scheme syntax, special => host and '/'-path, no credentials/port without host or on file, port canonical "
              "and not default, opaque path => no host, non-opaque path empty or '/'-led) evaluated through getters after every parse, resolution "
              "and setter of every history, both URL types. Non-trivial: history with a scheme, host or port transition. Distinct: (transition mask, scheme type, op sequence).",
